@@ -1,7 +1,160 @@
-//! Correspondence harness of property C15 (stub).
+//! Correspondence harness of property C15: batching and accumulation accept exactly the
+//! all-valid batches.
+//!
+//! Two layers (see `synth.rs`, `real.rs`):
+//! * synthetic guards/accumulators with known discrete logarithms and known trapdoor through the
+//!   real `MSMKZG`/`DualMSM`/`Guard::batch_verify`/`Msm`/`Accumulator` code — structures and
+//!   verdicts are recomputed by the Lean model;
+//! * real proofs of small ZkStdLib relations through the real `zk_stdlib::batch_verify` (honest
+//!   transcript hash: the property's oracle; recording hash: schedule of the batching transcript;
+//!   forced batching challenge: the algebra of the loop) and the real accumulator.
+mod fmt;
+mod real;
+mod rec;
+mod synth;
+
+use ff::{Field, PrimeField, WithSmallOrderMulGroup};
 use mzkh::Ctx;
+use rand::Rng;
+
+use fmt::F;
+use real::{Mem, Real};
+
+fn real_layer(ctx: &mut Ctx, level: usize) {
+    let mut rl = Real::build(ctx, level >= 1);
+    let mut rng = ctx.rng("c15:real");
+    let nrel = rl.rels.len();
+
+    // ---- D5 regressions and length mismatches (value, never a crash)
+    rl.batch(ctx, "batch:empty", &[]);
+    let h: Vec<Mem> = (0..3).map(|i| rl.honest(i % nrel, i)).collect();
+    for (nv, np, npr) in [(0, 1, 0), (0, 0, 1), (1, 0, 0), (1, 0, 1), (1, 1, 0), (1, 2, 1), (2, 1, 2), (2, 2, 1), (2, 2, 3), (3, 2, 2), (1, 1, 2), (0, 1, 1)] {
+        rl.batch_lens(ctx, "batch:len-mismatch", &h, nv, np, npr);
+    }
+
+    let reps = [1usize, 2, 6][level];
+    for rep in 0..reps {
+        for n in 1..=6usize {
+            // all valid, mixed relations / keys / k
+            let ms: Vec<Mem> = (0..n).map(|i| rl.honest((i + rep) % nrel, i / nrel + rep)).collect();
+            rl.batch(ctx, "batch:all-valid-mixed", &ms);
+            // all valid, one key
+            let rel = (n + rep) % nrel;
+            let ms1: Vec<Mem> = (0..n).map(|i| rl.honest(rel, i)).collect();
+            rl.batch(ctx, "batch:all-valid-one-key", &ms1);
+            // one invalid member at each position × kind of invalidity
+            for pos in 0..n {
+                for how in 0..3 {
+                    let mut b = ms.clone();
+                    b[pos] = rl.invalid(&mut rng, &ms[pos], how);
+                    rl.batch(ctx, ["batch:invalid:proof-corrupted", "batch:invalid:wrong-public-input", "batch:invalid:wrong-vk"][how], &b);
+                }
+                // the other ways of being invalid, cycling
+                let how = 3 + (pos + n + rep) % 5;
+                let mut b = ms.clone();
+                b[pos] = rl.invalid(&mut rng, &ms[pos], how);
+                rl.batch(ctx, ["batch:invalid:byte-flip", "batch:invalid:truncated", "batch:invalid:trailing-bytes", "batch:invalid:pi-length", "batch:invalid:proof-of-other-statement"][how - 3], &b);
+            }
+            // two invalid members
+            if n >= 2 {
+                let mut b = ms.clone();
+                let i = rng.gen_range(0..n);
+                let j = (i + 1 + rng.gen_range(0..n - 1)) % n;
+                let (hi, hj) = (rng.gen_range(0..9), rng.gen_range(0..9));
+                b[i] = rl.invalid(&mut rng, &ms[i], hi);
+                b[j] = rl.invalid(&mut rng, &ms[j], hj);
+                rl.batch(ctx, "batch:two-invalid", &b);
+            }
+        }
+        // permutations of a batch with one invalid member; repeated members
+        for n in [3usize, 4, 5] {
+            let mut ms: Vec<Mem> = (0..n).map(|i| rl.honest((i + rep) % nrel, i + rep)).collect();
+            let pos = rng.gen_range(0..n);
+            ms[pos] = rl.invalid(&mut rng, &ms[pos], rep % 3);
+            for s in 0..n {
+                let mut p = ms.clone();
+                p.rotate_left(s);
+                rl.batch(ctx, "batch:permutation-rotate", &p);
+            }
+            for _ in 0..2 {
+                let mut p = ms.clone();
+                Real::shuffle(&mut rng, &mut p);
+                rl.batch(ctx, "batch:permutation-random", &p);
+            }
+        }
+        let v = rl.honest(rep % nrel, rep);
+        let x = rl.invalid(&mut rng, &v, rep % 2);
+        for n in 2..=6usize {
+            rl.batch(ctx, "batch:repeated-valid", &vec![v.clone(); n]);
+            rl.batch(ctx, "batch:repeated-invalid", &vec![x.clone(); n]);
+            let alt: Vec<Mem> = (0..n).map(|i| if i % 2 == 0 { v.clone() } else { x.clone() }).collect();
+            rl.batch(ctx, "batch:repeated-alternating", &alt);
+        }
+    }
+
+    // ---- forced batching challenge: the algebra of the loop inside the real batch_verify
+    let minus_one = -F::ONE;
+    let i4 = F::ROOT_OF_UNITY.pow([1u64 << (F::S - 2)]);
+    let omega = <F as WithSmallOrderMulGroup<3>>::ZETA;
+    assert_eq!(i4 * i4, minus_one);
+    assert_eq!(omega * omega + omega + F::ONE, F::ZERO);
+    for rep in 0..reps {
+        let v = rl.honest(rep % nrel, rep);
+        let v2 = rl.honest((rep + 1) % nrel, rep + 1);
+        let x = rl.invalid(&mut rng, &v, rep % 2);
+        let y = rl.invalid(&mut rng, &v2, (rep + 1) % 2);
+        let rnd = F::random(&mut rng);
+        let roots = [F::ZERO, F::ONE, minus_one, i4, -i4, omega, -omega, rnd];
+        let shapes: Vec<Vec<Mem>> = vec![
+            vec![x.clone(), v.clone()],
+            vec![v.clone(), x.clone()],
+            vec![x.clone(), x.clone()],
+            vec![x.clone(), y.clone()],
+            vec![x.clone(), x.clone(), x.clone()],
+            vec![x.clone(), v.clone(), x.clone()],
+            vec![v.clone(), x.clone(), x.clone()],
+            vec![x.clone(), v2.clone(), v.clone(), x.clone()],
+            vec![x.clone(), x.clone(), x.clone(), x.clone()],
+            vec![v.clone(), v2.clone(), v.clone()],
+            vec![x.clone(), v.clone(), v2.clone(), v.clone(), v2.clone(), x.clone()],
+        ];
+        for (si, ms) in shapes.iter().enumerate() {
+            for (ri, r) in roots.iter().enumerate() {
+                if level == 0 && (si + ri + rep) % 2 == 1 && ri != 2 {
+                    continue;
+                }
+                rl.batch_forced(ctx, "batch:forced-r", ms, *r);
+            }
+        }
+    }
+
+    // ---- accumulators of real guards: accumulate of 1..5, collapse, check
+    for rep in 0..reps {
+        for n in 1..=5usize {
+            let ms: Vec<Mem> = (0..n).map(|i| rl.honest((i + rep) % nrel, i / nrel + rep)).collect();
+            rl.accumulate(ctx, "accumulate:real:all-valid", &ms, rep == 0 && n <= 2);
+            for pos in 0..n {
+                let mut b = ms.clone();
+                // a member whose guard exists but fails: evaluation flipped or wrong public input
+                b[pos] = rl.invalid(&mut rng, &ms[pos], (pos + rep) % 2);
+                rl.accumulate(ctx, "accumulate:real:one-invalid", &b, false);
+            }
+        }
+    }
+    ctx.set_extra("real_batches", serde_json::json!(rl.stats_batches));
+}
 
 fn main() {
-    let ctx = Ctx::from_args("C15");
+    let mut ctx = Ctx::from_args("C15");
+    let level = if ctx.quick() { 0 } else if ctx.thorough() { 1 } else { 2 };
+    let mut sy = synth::Synth::new();
+    let m = [1usize, 4, 2][level];
+    sy.msm_eval(&mut ctx, 40 * m);
+    sy.dual_seq(&mut ctx, 120 * m);
+    sy.horner(&mut ctx, 2 * m);
+    sy.gbatch(&mut ctx, 2 * m);
+    sy.from_dual(&mut ctx, 64 * m);
+    sy.acc_ops(&mut ctx, 90 * m);
+    real_layer(&mut ctx, level);
     ctx.finish();
 }
